@@ -19,6 +19,8 @@ type guardSpec struct {
 	Owner, Field, Lock string
 	WriteNeedsW        bool
 	Reason             string
+	// ZeroOK: having no shared access at all (only local value copies) is fine
+	ZeroOK bool
 }
 
 // lockedCallees: functions whose contract is "caller holds the lock".
@@ -29,18 +31,18 @@ var lockedCallees = map[string]string{
 
 // constructors: the object is not yet shared.
 var constructorFns = map[string]bool{
-	"channelmonitor.newMonitoredChannel":                   true,
-	"channelmonitor.NewMonitor":                            true,
-	"(*transport/graphsync.Transport).newDTChannel":        true,
-	"transport/graphsync.NewTransport":                     true,
-	"transport/graphsync.newRequestIDToChannelIDMap":       true,
-	"channels.newBlockIndexCache":                          true,
-	"channels.newProgressCache":                            true,
-	"channelsubscriptions.NewChannelSubscriptions":         true,
-	"transportoptions.NewTransportOptions":                 true,
-	"tracing.NewSpansIndex":                                true,
-	"registry.NewRegistry":                                 true,
-	"impl.newTimeCounter":                                  true,
+	"channelmonitor.newMonitoredChannel":             true,
+	"channelmonitor.NewMonitor":                      true,
+	"(*transport/graphsync.Transport).newDTChannel":  true,
+	"transport/graphsync.NewTransport":               true,
+	"transport/graphsync.newRequestIDToChannelIDMap": true,
+	"channels.newBlockIndexCache":                    true,
+	"channels.newProgressCache":                      true,
+	"channelsubscriptions.NewChannelSubscriptions":   true,
+	"transportoptions.NewTransportOptions":           true,
+	"tracing.NewSpansIndex":                          true,
+	"registry.NewRegistry":                           true,
+	"impl.newTimeCounter":                            true,
 }
 
 type fieldAccess struct {
@@ -64,6 +66,10 @@ func fieldAccesses(p *core.Prog, owner, field string) []fieldAccess {
 				}
 				o, f := core.FieldOwner(fa)
 				if o != owner || f != field {
+					continue
+				}
+				if al, ok := fa.X.(*ssa.Alloc); ok && !al.Heap {
+					// a field of a local value copy: not shared memory
 					continue
 				}
 				for _, ref := range *fa.Referrers() {
@@ -191,6 +197,10 @@ func guardedBy(r *R, rule string, specs []guardSpec, outOfScope map[string]strin
 					}
 				}
 			}
+		}
+		if n == 0 && sp.ZeroOK {
+			r.c.OK(rule, "guarded:"+key, "", "no access through shared memory (only local value copies)")
+			continue
 		}
 		if n == 0 {
 			r.c.Stuck(rule, "guarded:"+key, "", "no access to "+key+" found in scope: the field was renamed or the table is stale")
